@@ -9,7 +9,13 @@ type Rand struct {
 	forced []uint32
 	pos    int
 	replay bool
+	// Overflow: more choices were drawn than the log can hold (the run cannot be replayed from its log).
+	Overflow bool
 }
+
+const maxChoices = 1 << 20
+
+var logBuf = make([]uint32, 0, maxChoices)
 
 func splitmix(x *uint64) uint64 {
 	*x += 0x9e3779b97f4a7c15
@@ -21,7 +27,7 @@ func splitmix(x *uint64) uint64 {
 
 //go:norace
 func NewRand(seed uint64) *Rand {
-	r := &Rand{}
+	r := &Rand{Log: logBuf[:0]}
 	x := seed
 	for i := range r.s {
 		r.s[i] = splitmix(&x)
@@ -33,7 +39,7 @@ func NewRand(seed uint64) *Rand {
 //
 //go:norace
 func NewReplay(choices []uint32) *Rand {
-	return &Rand{forced: choices, replay: true}
+	return &Rand{forced: choices, replay: true, Log: logBuf[:0]}
 }
 
 func rotl(x uint64, k uint) uint64 { return (x << k) | (x >> (64 - k)) }
@@ -68,7 +74,11 @@ func (r *Rand) Choose(n int) int {
 	} else {
 		v = uint32(r.next()>>33) % uint32(n)
 	}
-	r.Log = append(r.Log, v)
+	if len(r.Log) < cap(r.Log) {
+		r.Log = append(r.Log, v) // capacity pre-allocated: slice growth has race hooks
+	} else {
+		r.Overflow = true
+	}
 	return int(v)
 }
 
